@@ -179,7 +179,20 @@ func c10Relay(p *core.Prog, r *core.Report) {
 		})
 		ok := tombIf != nil
 		why := "no tombstone test"
-		if ok {
+		if !ok {
+			// the test may live in a helper: a pure boolean function of the
+			// item's tomb flag, `finished` and `stopped`; its truth table
+			// (extracted from its CFG) must drop every late frame
+			if hif, hwhy := lateTestHelper(p, f, get); hif != nil {
+				bypass := core.ReachAvoiding(f, get, isForward, func(i ssa.Instruction) bool { return i == ssa.Instruction(hif) }, nil)
+				arm := hif.Block().Succs[0].Instrs[0]
+				fromArm := isForward(arm) || core.ReachAvoiding(f, arm, isForward, nil, nil).Found
+				ok = !bypass.Found && !fromArm
+				why = fmt.Sprintf("helper test: bypass=%v dropArmForwards=%v", bypass.Found, fromArm)
+			} else if hwhy != "" {
+				why = hwhy
+			}
+		} else {
 			bypass := core.ReachAvoiding(f, get, isForward, func(i ssa.Instruction) bool { return i == ssa.Instruction(tombIf) }, nil)
 			fromTomb := core.ReachAvoiding(f, tombIf.Block().Succs[0].Instrs[0], isForward, nil, nil)
 			if isForward(tombIf.Block().Succs[0].Instrs[0]) {
@@ -221,6 +234,25 @@ func c10Relay(p *core.Prog, r *core.Report) {
 		}
 		r.Check(ok, "C10-R3", fname(f), "late frames (tombstone, or final frame whose timer already fired) are never forwarded", p.Pos(get.Pos()),
 			"every path to the forward passes the test and neither failing arm reaches it", "a frame for a finished / timed-out call can still be forwarded: "+why)
+	}
+	// an error frame sent while admitting a call req is terminal: no path from
+	// it registers the relay items (whose timer would send a second error
+	// frame for the id) or forwards the request
+	if f := mustFunc(p, r, "", "Relayer", "handleCallReq"); f != nil {
+		n := 0
+		isAdmit := func(i ssa.Instruction) bool {
+			_, ok := core.IsCall(i, "Relayer.addRelayItem", "Relayer.Receive", "frameReceiver.Receive", "Relayer.fragmentingSend")
+			return ok
+		}
+		for k, snd := range core.CallsIn(f, "Connection.SendSystemError") {
+			n++
+			res := core.ReachPhiSensitive(f, snd.(ssa.Instruction), isAdmit, nil)
+			r.Check(!res.Found, "C10-R3", fname(f), fmt.Sprintf("admission error frame #%d is terminal", k+1), p.Pos(snd.Pos()),
+				"no path from the error frame reaches addRelayItem / Receive / fragmentingSend", "after the error frame the call is still relayed (a second terminal frame follows at the ttl): "+p.TrailString(res))
+		}
+		if n < 2 {
+			r.Errorf("relay handleCallReq: expected at least 2 admission error frames, found %d", n)
+		}
 	}
 	if f := mustFunc(p, r, "", "Relayer", "timeoutRelayItem"); f != nil {
 		sends := core.CallsIn(f, "Connection.SendSystemError")
@@ -292,4 +324,71 @@ func c10IDs(p *core.Prog, r *core.Report) {
 		}
 		r.Check(ok && n > 0, "C10-R4", fname(f), "relay error frames carry the item's id", p.Pos(f.Pos()), "id parameter passed through", "relay-originated error frame uses another id")
 	}
+}
+
+// lateTestHelper finds `if helper(item, finished, stopped)` after the lookup
+// where helper is a pure boolean function whose extracted truth table
+// satisfies: helper false => !tomb && !(finished && !stopped).
+func lateTestHelper(p *core.Prog, f *ssa.Function, get ssa.CallInstruction) (*ssa.If, string) {
+	var found *ssa.If
+	why := ""
+	core.EachInstr(f, func(i ssa.Instruction) {
+		ifi, ok := i.(*ssa.If)
+		if !ok || found != nil {
+			return
+		}
+		c, ok := ifi.Cond.(*ssa.Call)
+		if !ok {
+			return
+		}
+		g := c.Call.StaticCallee()
+		if g == nil || !p.InAnalysed(g) {
+			return
+		}
+		atoms, eval, pure := core.BoolTable(g)
+		if !pure {
+			return
+		}
+		role := map[core.BoolAtom]string{}
+		args := c.Call.Args
+		for _, a := range atoms {
+			switch {
+			case a.Field == "tomb":
+				role[a] = "tomb"
+			case a.Field == "" && a.Param < len(args) && callResult(args[a.Param], "finishesCall") != nil:
+				role[a] = "finished"
+			case a.Field == "" && a.Param < len(args) && okOf("relayItems.Get", 1)(args[a.Param]):
+				role[a] = "stopped"
+			default:
+				return
+			}
+		}
+		have := map[string]bool{}
+		for _, v := range role {
+			have[v] = true
+		}
+		if !have["tomb"] || !have["finished"] || !have["stopped"] {
+			return
+		}
+		for m := 0; m < 1<<len(atoms); m++ {
+			as := map[core.BoolAtom]bool{}
+			vals := map[string]bool{}
+			for k, a := range atoms {
+				as[a] = m&(1<<k) != 0
+				vals[role[a]] = as[a]
+			}
+			res, okE := eval(as)
+			if !okE {
+				why = "the late-frame helper " + fname(g) + " could not be evaluated"
+				return
+			}
+			late := vals["tomb"] || (vals["finished"] && !vals["stopped"])
+			if late && !res {
+				why = fmt.Sprintf("the late-frame helper %s lets a late frame through (tomb=%v finished=%v stopped=%v)", fname(g), vals["tomb"], vals["finished"], vals["stopped"])
+				return
+			}
+		}
+		found = ifi
+	})
+	return found, why
 }
